@@ -6,6 +6,7 @@
 package psi
 
 import (
+	"bytes"
 	"github.com/Comcast/gots/v2"
 	"github.com/Comcast/gots/v2/packet"
 )
@@ -337,7 +338,7 @@ func specESPid(b []byte, o int) int { return int(b[o+1]%32)*256 + int(b[o+2]) }
 //@ func NewPMT(pmtBytes []byte) (x PMT, err error)
 //@   props C05 C06
 //@   ensures len(pmtBytes) == 0 ==> err != nil
-//@   ensures err == nil ==> x != nil
+//@   ensures err == nil ==> x != nil && pmtOf(x) != nil && fresh(pmtOf(x))
 //@   modifies nothing
 
 
@@ -427,6 +428,66 @@ func specStreamsOK(es []PmtElementaryStream) bool {
 //@     invariant -1 <= rangeindex && rangeindex < len(p.elementaryStreams)
 //@     invariant forall j in 0..rangeindex+1 :: esOf(p.elementaryStreams[j]).elementaryPid != pid
 //@     decreases len(p.elementaryStreams) - rangeindex
+
+
+// ---------------------------------------------------------------- C14/C05: PMT filtering (safety, frame, error contract)
+
+//@ func padPacket(buf *bytes.Buffer) *packet.Packet
+//@   props C14 C05
+//@   requires buf != nil && verifBufOK(buf)
+//@   ensures result != nil && fresh(result)
+//@   modifies nothing
+//@   loop 1 (i int)
+//@     invariant 0 <= i && i <= 188
+//@     decreases 188 - i
+
+// specPktHdrLen: 4 header bytes plus the adaptation field when flagged.
+func specPktHdrLen(p *packet.Packet) int {
+	if (p[3]/32)%2 == 1 {
+		return 5 + int(p[4])
+	}
+	return 4
+}
+
+// verifSnapPtrs returns an independent copy of a packet list (used under old(...)).
+func verifSnapPtrs(b []*packet.Packet) []*packet.Packet {
+	c := make([]*packet.Packet, len(b))
+	copy(c, b)
+	return c
+}
+
+// specSamePkts: the list still holds the caller's packets.
+func specSamePkts(ps []*packet.Packet, od []*packet.Packet) bool {
+	return verifForall(0, len(ps), func(k int) bool { return ps[k] == od[k] })
+}
+
+func specPktsOK(ps []*packet.Packet) bool {
+	// !verifFresh: a packet handed in by the caller is not an object allocated during the call
+	return verifForall(0, len(ps), func(k int) bool { return ps[k] != nil && !verifFresh(ps[k]) && specPktHdrLen(ps[k]) <= 188 })
+}
+
+//@ func FilterPMTPacketsToPids(packets []*packet.Packet, pids []int) (out []*packet.Packet, err error)
+//@   props C14 C05
+//@   requires specPktsOK(packets)
+//@   ensures len(packets) == 0 ==> len(out) == 0 && err == nil
+//@   ensures len(packets) > 0 && len(pids) == 0 ==> err == nil && len(out) == len(packets) && &out[0] == &packets[0]
+//@   modifies nothing
+//@   loop 1 (i int, pmtByteBuffer *bytes.Buffer)
+//@     invariant 0 <= i && i <= len(packets) && specPktsOK(packets) && specSamePkts(packets, old(verifSnapPtrs(packets)))
+//@     invariant forall k in 0..i :: (packets[k][3]/16)%2 == 1
+//@     invariant pmtByteBuffer != nil && verifBufOK(pmtByteBuffer) && fresh(pmtByteBuffer)
+//@     invariant cap(pmtByteBuffer.Bytes()) == 0 || fresh(pmtByteBuffer.Bytes())
+//@     decreases len(packets) - i
+//@   loop 2 (rangeindex int, missingPids []int)
+//@     invariant -1 <= rangeindex && rangeindex < len(pids) && (cap(missingPids) == 0 || fresh(missingPids)) && len(missingPids) <= rangeindex+1
+//@     decreases len(pids) - rangeindex
+//@   loop 3 (offset uint16, filteredPMT *bytes.Buffer, pointerField int)
+//@     invariant offset >= 12 && filteredPMT != nil && verifBufOK(filteredPMT) && fresh(filteredPMT) && specPktsOK(packets) && specSamePkts(packets, old(verifSnapPtrs(packets)))
+//@     invariant fresh(filteredPMT.Bytes()) && filteredPMT.Len() >= pointerField+12 && 1 <= pointerField && pointerField <= 256
+//@     decreases 70000 - int(offset)
+//@   loop 4 (rangeindex int, fPMT []byte, filteredPMTPackets []*packet.Packet)
+//@     invariant -1 <= rangeindex && rangeindex < len(packets) && specPktsOK(packets) && specSamePkts(packets, old(verifSnapPtrs(packets))) && (cap(filteredPMTPackets) == 0 || fresh(filteredPMTPackets))
+//@     decreases len(packets) - rangeindex
 
 // ---------------------------------------------------------------- C07: PAT
 
@@ -614,3 +675,7 @@ func specMapIs(m map[int]int, p pat, n int) bool {
 
 var _ = gots.ErrNoPayload
 var _ = packet.PacketSize
+var _ = bytes.MinRead
+
+// verifBufOK(b): bytes.Buffer invariant 0 <= off <= len(buf) (decided symbolically only).
+func verifBufOK(b interface{}) bool { return true }
